@@ -109,20 +109,8 @@ fn c02_grid_mul_dual3_64() {
         "Dual3 product: v3 == a3*b0 + 3*a2*b1 + 3*a1*b2 + a0*b3"
     );
 }
-#[kani::proof]
-fn c02_grid_div_dual3_64() {
-    let ((_, x0), (_, x1), (_, x2), (_, x3)) = (g(), g(), g(), g());
-    let (y0, (_, y1), (_, y2), (_, y3)) = (gdiv(), g(), g(), g());
-    let a = Dual3_64::new(x0, x1, x2, x3);
-    let b = Dual3_64::new(y0, y1, y2, y3);
-    let r = (a / b) * b;
-    assert!(r.re == a.re, "Dual3 (a/b)*b: re");
-    assert!(r.v1 == a.v1, "Dual3 (a/b)*b: v1");
-    assert!(r.v2 == a.v2, "Dual3 (a/b)*b: v2");
-    assert!(r.v3 == a.v3, "Dual3 (a/b)*b: v3");
-}
-
-/// Dual3 quotient, one part per harness (the all-parts harness above needs > 25 min):
+/// Dual3 quotient, one part per harness (an all-parts harness did not finish in 25 min,
+/// neither with cadical nor with kissat):
 /// part v_k of (a/b)*b only depends on parts 0..=k of a and b, so CBMC's slicer removes the rest.
 macro_rules! div_dual3_part {
     ($name:ident, $part:ident, $msg:literal) => {
@@ -164,21 +152,29 @@ fn c02_grid_mul_hyperhyperdual64() {
         "HyperHyperDual product: eps1eps2eps3 (8-term Leibniz sum)"
     );
 }
-#[kani::proof]
-fn c02_grid_div_hyperhyperdual64() {
-    let ((_, x0), (_, x1), (_, x2), (_, x3)) = (g(), g(), g(), g());
-    let ((_, x12), (_, x13), (_, x23), (_, x123)) = (g(), g(), g(), g());
-    let (y0, (_, y1), (_, y2), (_, y3)) = (gdiv(), g(), g(), g());
-    let ((_, y12), (_, y13), (_, y23), (_, y123)) = (g(), g(), g(), g());
-    let a = HyperHyperDual64::new(x0, x1, x2, x3, x12, x13, x23, x123);
-    let b = HyperHyperDual64::new(y0, y1, y2, y3, y12, y13, y23, y123);
-    let r = (a / b) * b;
-    assert!(r.re == a.re, "HyperHyperDual (a/b)*b: re");
-    assert!(r.eps1 == a.eps1, "HyperHyperDual (a/b)*b: eps1");
-    assert!(r.eps2 == a.eps2, "HyperHyperDual (a/b)*b: eps2");
-    assert!(r.eps3 == a.eps3, "HyperHyperDual (a/b)*b: eps3");
-    assert!(r.eps1eps2 == a.eps1eps2, "HyperHyperDual (a/b)*b: eps1eps2");
-    assert!(r.eps1eps3 == a.eps1eps3, "HyperHyperDual (a/b)*b: eps1eps3");
-    assert!(r.eps2eps3 == a.eps2eps3, "HyperHyperDual (a/b)*b: eps2eps3");
-    assert!(r.eps1eps2eps3 == a.eps1eps2eps3, "HyperHyperDual (a/b)*b: eps1eps2eps3");
+/// HyperHyperDual quotient, one part per harness (an all-parts harness did not finish in
+/// 25 min).  By symmetry of the formulas in eps1/eps2/eps3 one representative per order is
+/// run: re, eps1, eps1eps2, eps1eps2eps3 (+ the remaining first/second-order parts).
+macro_rules! div_hhd_part {
+    ($name:ident, $part:ident, $msg:literal) => {
+        #[kani::proof]
+        fn $name() {
+            let ((_, x0), (_, x1), (_, x2), (_, x3)) = (g(), g(), g(), g());
+            let ((_, x12), (_, x13), (_, x23), (_, x123)) = (g(), g(), g(), g());
+            let (y0, (_, y1), (_, y2), (_, y3)) = (gdiv(), g(), g(), g());
+            let ((_, y12), (_, y13), (_, y23), (_, y123)) = (g(), g(), g(), g());
+            let a = HyperHyperDual64::new(x0, x1, x2, x3, x12, x13, x23, x123);
+            let b = HyperHyperDual64::new(y0, y1, y2, y3, y12, y13, y23, y123);
+            let r = (a / b) * b;
+            assert!(r.$part == a.$part, $msg);
+        }
+    };
 }
+div_hhd_part!(c02_grid_div_hyperhyperdual64_re, re, "HyperHyperDual (a/b)*b: re");
+div_hhd_part!(c02_grid_div_hyperhyperdual64_eps1, eps1, "HyperHyperDual (a/b)*b: eps1");
+div_hhd_part!(c02_grid_div_hyperhyperdual64_eps2, eps2, "HyperHyperDual (a/b)*b: eps2");
+div_hhd_part!(c02_grid_div_hyperhyperdual64_eps3, eps3, "HyperHyperDual (a/b)*b: eps3");
+div_hhd_part!(c02_grid_div_hyperhyperdual64_eps1eps2, eps1eps2, "HyperHyperDual (a/b)*b: eps1eps2");
+div_hhd_part!(c02_grid_div_hyperhyperdual64_eps1eps3, eps1eps3, "HyperHyperDual (a/b)*b: eps1eps3");
+div_hhd_part!(c02_grid_div_hyperhyperdual64_eps2eps3, eps2eps3, "HyperHyperDual (a/b)*b: eps2eps3");
+div_hhd_part!(c02_grid_div_hyperhyperdual64_eps1eps2eps3, eps1eps2eps3, "HyperHyperDual (a/b)*b: eps1eps2eps3");
